@@ -47,7 +47,7 @@ class LifterModelCallArml(LifterModelCallArmlBase):
 
 
         cond = instr.additional_info.cond
-        if cond == 14: # COND_ALWAYS:
+        if cond in (14, 15): # COND_ALWAYS, or the unconditional space (BLX imm):
             return [call_assignblk], []
 
         # Call is a conditional instruction
